@@ -4,7 +4,8 @@ import ast
 import z3
 
 from . import values as V
-from .values import (Opt, Ptr, Opaque, Ref, StrV, BytesV, FuncV, ModV, HList, HDict, HRec, HSet, is_sym, is_int_like,
+from .values import (Opt, Ptr, Opaque, Ref, StrV, BytesV, FuncV, ModV, HList, HDict, HRec, HSet, HRecList, ElemRef,
+                     is_sym, is_int_like,
                      is_bool_like, to_z3, parse_type)
 
 I = z3.IntSort()
@@ -332,7 +333,7 @@ def spec_call(eng, st, node):
     saved = {a: st.heap[a] for a in snap if a in st.heap}
     for a, o in snap.items():
       st.heap[a] = o
-    fr = Frame(dict(env), None, st.frame.module, fname=st.frame.fname)
+    fr = Frame(dict(env), st.frame, st.frame.module, fname=st.frame.fname)   # bound variables via the closure link
     st.frames.append(fr)
     try:
       return eng.ev(node.args[0], st)
@@ -345,6 +346,17 @@ def spec_call(eng, st, node):
   if name in SPEC_FUNCS:
     args = [eng.ev(a, st) for a in node.args]
     return SPEC_FUNCS[name](eng, st, *args)
+  from . import contracts as C
+  if name in C.MACROS:
+    from .engine import Frame
+    params, body = C.MACROS[name]
+    args = [eng.ev(a, st) for a in node.args]
+    fr = Frame(dict(zip(params, args)), None, st.frame.module, fname="macro:" + name)
+    st.frames.append(fr)
+    try:
+      return eng.ev(body, st)
+    finally:
+      st.frames.pop()
   return NotImplemented
 
 
@@ -424,6 +436,26 @@ def _s_idiv(eng, st, a, b):
 @specfn("ite")
 def _s_ite(eng, st, c, a, b):
   return eng.ite(eng.truthy(st, c), a, b)
+
+
+@specfn("index")
+def _s_index(eng, st, e):
+  if isinstance(e, Opt):
+    e = e.val
+  return e.idx
+
+
+@specfn("str_nonempty")
+def _s_str_nonempty(eng, st, x):
+  if isinstance(x, str):
+    return len(x) > 0
+  return STRLEN(x.term) > 0
+
+
+@specfn("current_version")
+def _s_current_version(eng, st):
+  from . import source
+  return read_version(eng)
 
 
 @specfn("is_none")
@@ -509,6 +541,15 @@ def module_attr(eng, st, mod, attr):
   if root in LIB_MODULES or mod.name.startswith("paranoid_crypto"):
     return Opaque(f"{mod.name}.{attr}")
   raise_unsupported(f"module attribute {mod.name}.{attr}")
+
+
+def read_version(eng):
+  """paranoid_crypto.version.__version__ = content of the VERSION resource (resources.GetParanoidResource is assumed to
+  return the file's bytes)."""
+  import os
+  from . import source
+  eng.used_theories.add("version.__version__ == stripped content of paranoid_crypto/VERSION (resource loader trusted)")
+  return open(os.path.join(eng.repo or source.REPO, "paranoid_crypto/VERSION")).read().strip()
 
 
 _proto_cache = {}
@@ -604,9 +645,57 @@ def rec_index(eng, st, ptr, o, idx, node):
   raise_unsupported("subscript of record")
 
 
+def lift(eng, st, t, v):
+  """Converts concrete str/bytes into their symbolic representation for storage into arrays."""
+  t = parse_type(t)
+  if t == "str" and isinstance(v, str):
+    return StrV(str_term(eng, st, v))
+  if t == "bytes" and isinstance(v, bytes):
+    return bytes_val(v)
+  return V.coerce(t, v)
+
+
+def msg_elem_fields(eng, cls):
+  """Scalar fields of a protobuf message (used for repeated-message struct-of-arrays)."""
+  enums, messages = proto(eng)
+  out = {}
+  for fname, (ft, rep) in messages[cls].items():
+    if rep:
+      continue
+    if ft in PB_SCALAR:
+      out[fname] = PB_SCALAR[ft]
+    elif ft in enums:
+      out[fname] = "int"
+  return out
+
+
 def fresh_rec(eng, st, t, name):
-  fields = {k: eng.fresh_heap(st, ft, f"{name}.{k}") for k, ft in t[2].items()}
-  return st.alloc(HRec(t[1], fields))
+  if t[2] is not None:
+    fields = {k: eng.fresh_heap(st, ft, f"{name}.{k}") for k, ft in t[2].items()}
+    return st.alloc(HRec(t[1], fields))
+  cls = t[1]
+  enums, messages = proto(eng)
+  if cls not in messages:
+    raise_unsupported(f"unknown message {cls}")
+  fields = {}
+  for fname, (ft, rep) in messages[cls].items():
+    nm = f"{name}.{fname}"
+    if rep and ft in messages:
+      ef = msg_elem_fields(eng, ft)
+      ln = z3.Int(V.fresh_name(nm + ".len"))
+      st.assume(ln >= 0)
+      fields[fname] = st.alloc(HRecList("pb2." + ft, ef, {k: V.fresh_rep(et, f"{nm}.{k}") for k, et in ef.items()}, ln))
+    elif rep:
+      fields[fname] = eng.fresh_heap(st, ("list", PB_SCALAR.get(ft, "int")), nm)
+    elif ft in PB_SCALAR:
+      fields[fname] = eng.fresh_heap(st, PB_SCALAR[ft], nm)
+    elif ft in enums:
+      fields[fname] = eng.fresh_heap(st, "int", nm)
+    elif ft in messages:
+      fields[fname] = fresh_rec(eng, st, ("rec", ft, None), nm)
+    else:
+      fields[fname] = Opaque(nm)
+  return st.alloc(HRec("pb2." + cls, fields))
 
 
 def construct(eng, st, f, args, kwargs, node):
@@ -827,6 +916,8 @@ def length_of(eng, st, v, node):
       return len(o.items)
     if isinstance(o, HDict):
       return dict_len(eng, st, o)
+    if isinstance(o, HRecList):
+      return o.length
   if isinstance(v, Opaque):
     return Opaque("len(" + v.why + ")")
   if isinstance(v, StrV):
@@ -1260,6 +1351,8 @@ def as_iterable(eng, st, it, node):
       return ("concrete", [unhash(k) for k in o.items])
     if isinstance(o, HSet) and o.items is not None:
       return ("concrete", list(o.items.values()))
+    if isinstance(o, HRecList):
+      return ("reclist", it)
   if isinstance(it, BytesV):
     return ("bytesv", it)
   if isinstance(it, Opaque):
@@ -1298,6 +1391,8 @@ def iter_len(eng, st, seq):
     return r
   if k == "bytesv":
     return seq[1].length
+  if k == "reclist":
+    return st.deref(seq[1]).length
   raise_unsupported("iter_len")
 
 
@@ -1315,6 +1410,8 @@ def iter_item(eng, st, seq, k, node):
     return tuple(iter_item(eng, st, s, k, node) for s in seq[1])
   if kind == "bytesv":
     return bytes_index(eng, st, seq[1], k, node, checked=True)
+  if kind == "reclist":
+    return ElemRef(seq[1], k)
   raise_unsupported("iter_item")
 
 
@@ -1605,6 +1702,25 @@ def call_method(eng, st, selfv, name, args, kwargs, node):
           for x in seq[1]:
             d[hashable(eng, st, x)] = x
         return st.alloc(HSet(items=d))
+    if isinstance(o, HRecList):
+      if name == "append":
+        src = args[0]
+        if not (isinstance(src, Ptr) and isinstance(st.deref(src), HRec)):
+          raise Unsupported("append of a non-record to a repeated message field")
+        rec = st.deref(src)
+        for k, ft in o.fields.items():
+          if k not in rec.fields:
+            raise Unsupported(f"record lacks field {k}")
+          o.reps[k] = V.store_rep(ft, o.reps[k], to_z3(o.length), lift(eng, st, ft, rec.fields[k]))
+        o.length = o.length + 1
+        return None
+      if name == "add":
+        defaults = {"bytes": b"", "str": "", "bool": False, "int": 0}
+        for k, ft in o.fields.items():
+          o.reps[k] = V.store_rep(ft, o.reps[k], to_z3(o.length), lift(eng, st, ft, kwargs.get(k, defaults[ft])))
+        e = ElemRef(selfv, o.length)
+        o.length = o.length + 1
+        return e
     raise Unsupported(f"method {name} on {type(o).__name__}")
   if isinstance(selfv, (str, StrV)):
     return str_method(eng, st, selfv, name, args, kwargs, node)
@@ -1771,7 +1887,8 @@ def str_term(eng, st, s):
   if isinstance(s, StrV):
     return s.term
   if s not in _str_consts:
-    _str_consts[s] = z3.Const("str!" + repr(s), V.StrSort)
+    tag = "".join(ch if ch.isalnum() else "_" for ch in s)[:24] + "_" + s.encode().hex()[:40]
+    _str_consts[s] = z3.Const("strc_" + tag, V.StrSort)
   t = _str_consts[s]
   used = st.__dict__.setdefault("str_consts", {})
   if s not in used:
